@@ -33,7 +33,7 @@ theorem first_member_opens (cx : Ctx) (em : List Str) (seg : Segment) (c : Str) 
        | some v, _ => [linkerSym (cx.d.settings.style.classStart c) (.hex8 v)]
        | none, some fs => [linkerSym (cx.d.settings.style.classStart c) (.sym fs)]
        | none, none => linkerSym (cx.d.settings.style.classStart c) (.hex8 0) ::
-           vc.followsClasses.map (fun o => maxSelf (cx.d.settings.style.classStart c) (cx.d.settings.style.classEnd o)))
+           (followedUsed cx vc).map (fun o => maxSelf (cx.d.settings.style.classStart c) (cx.d.settings.style.classEnd o)))
       ++ [linkerSym (cx.d.settings.style.classEnd c) (.hex8 0), .blank] := by
   constructor
   · unfold classPart
@@ -152,7 +152,7 @@ the `fixed_symbol`, or the largest value among the end symbols of the classes it
 theorem image_class_prologue (objs : List InSec) (cx : Ctx) (cname : Str) (vc : VramClass)
     (st : St) (ho : Outside st) (ev : Str → Nat) (k : List Line)
     (hfs : ∀ fs, vc.fixedVram = none → vc.fixedSymbol = some fs → lookupLast fs st.syms = some (.num (ev fs)))
-    (hfo : vc.fixedVram = none → vc.fixedSymbol = none → ∀ o ∈ vc.followsClasses,
+    (hfo : vc.fixedVram = none → vc.fixedSymbol = none → ∀ o ∈ followedUsed cx vc,
       lookupLast (cx.d.settings.style.classEnd o) st.syms = some (.num (ev (cx.d.settings.style.classEnd o)))) :
     lookupLast (cx.d.settings.style.classEnd cname) (execK objs st (classIntro cx cname vc) k).syms = some (.num 0) ∧
     lookupLast (cx.d.settings.style.classStart cname) (execK objs st (classIntro cx cname vc) k).syms = some (.num
@@ -160,7 +160,7 @@ theorem image_class_prologue (objs : List InSec) (cx : Ctx) (cname : Str) (vc : 
        | some v => v
        | none => match vc.fixedSymbol with
          | some fs => ev fs
-         | none => (vc.followsClasses.map cx.d.settings.style.classEnd).foldl (fun m o => max m (ev o)) 0)) := by
+         | none => ((followedUsed cx vc).map cx.d.settings.style.classEnd).foldl (fun m o => max m (ev o)) 0)) := by
   have h := class_intro_image objs cx cname vc st ho ev k hfs hfo
   exact ⟨h.2.2.2.1, h.2.2.2.2⟩
 
@@ -187,5 +187,15 @@ theorem image_class_end_accumulates (objs : List InSec) (cx : Ctx) (seg : Segmen
     lookupLast (cx.d.settings.style.classEnd c) (execK objs st (segTail cx seg) k).syms
       = some (.num (max e0 (alignO seg.segmentEndAlign st.dot))) :=
   tail_class_end objs cx seg c hc st ho r0 hr e0 he k
+
+/-- **only classes in use are followed in the script**: the `MAX` statements of a follower name
+the end symbol of exactly those followed classes that some emitted segment of the document
+uses — a class without emitted members has no symbols, and none is referred to (`760ecab`). -/
+theorem mem_followedUsed (cx : Ctx) (vc : VramClass) (other : Str) :
+    other ∈ followedUsed cx vc ↔
+      other ∈ vc.followsClasses ∧ ∃ s ∈ cx.d.segments, s.vramClass = some other ∧ shouldEmit cx.o s.cond = true := by
+  unfold followedUsed
+  simp only [List.mem_filter, List.any_eq_true, Bool.and_eq_true, decide_eq_true_eq]
+
 
 end Slinky.C10
